@@ -289,4 +289,20 @@ theorem own_cheat_settled_first_accepted :
      | .ok s => s.procs.length == 1 && s.cheatPipe == 2
      | _ => false) = true := by decide
 
+/-- Witness for the repaired defect `failedStartLosesToken`: a process that destroys its token for a child that is
+then never started (the pipe for the child's exit could not be created) and leaves — with the IOU a token-less exit
+writes — is rejected: it does not leave exactly one token to its job (the destroyed one is lost). -/
+theorem token_destroyed_for_unstarted_child_rejected :
+    (match run {} [.setupOwn 1 1, .destroy 1 1 0 0, .start 1 10 0 0, .setupInh 2 10, .destroy 2 1 0 0,
+                   .forcereturn 2 0, .cheatwrite 2 1, .returned 2 0 0] with
+     | .error (0, .guard _ 2) => true
+     | _ => false) = true := by decide
+
+/-- Repaired order: nothing is destroyed before the start can no longer fail; the process leaves with its token. -/
+theorem failed_start_keeps_token_accepted :
+    (match run {} [.setupOwn 1 1, .destroy 1 1 0 0, .start 1 10 0 0, .setupInh 2 10,
+                   .forcereturn 2 0, .returned 2 1 0] with
+     | .ok s => s.procs.length == 1 && s.cheatPipe == 0
+     | _ => false) = true := by decide
+
 end C08
